@@ -546,7 +546,8 @@ def _run(tier, seed):
         for c in cases:
             for cl, d in check_summary(c):
                 fails.append((cl, c, d))
-        rep.part("summary-conformance", "call-site summaries of ast.findFeatureTags / ast.findCommentPattern (assumed by the setContext and collectInsertMarkers proofs) agree with the real helpers",
+        rep.part("summary-conformance", "call-site summary of the recursive generator ast.findCommentPattern (assumed by the collectInsertMarkers proof) agrees with the real helper; "
+                 "ast.findFeatureTags returns a NEW set equal to the reference definition of featureTags (the helper itself is under contract, this is the native view's conformance)",
                  f"{len(cases)} generated feature files (blocks x markers at top/middle/bottom/alone/mis-cased/nested/root)", len(cases), fails, "contracts.c17.check via vcheck.hooks.c17.check_summary")
         n, f2 = ctor_conformance()
         rep.part("fealib-constructor-model", "feaLib constructors store each argument under the attribute of the same name (model used by the contracts)", f"{n} constructor probes", n, [(c, {}, d) for c, d in f2])
@@ -585,7 +586,7 @@ def _run(tier, seed):
     guarded(rep, "observer", part3)
     return rep.result(
         assumptions=[
-            "C17: ast.findFeatureTags / ast.findCommentPattern enter the proofs as call-site summaries (generators are outside the pyvc subset); validated by bounded conformance only",
+            "C17: the recursive generator ast.findCommentPattern enters the collectInsertMarkers proof as a call-site summary (`yield (statement, *res)` is outside the pyvc subset); validated by bounded conformance only",
             "C17: BaseFeatureWriter._insert is under deductive contract for calls with ONE generated feature (contracts/c17_insert.py); calls with two or more generated features "
             "(dependent features, interplay of two markers) are checked by exhaustive enumeration of a finite domain of block shapes (bounded) only",
         ],
